@@ -59,7 +59,7 @@ func genC08(t *rapid.T) CaseC08 {
 	lil := rapid.IntRange(0, 4).Draw(t, "lil") == 0
 	sh := genRootShape(t, lil)
 	c := CaseC08{Map: instantiate(t, sh).(map[string]interface{})}
-	c.Key = rapid.SampledFrom(append([]string{"*", "zz"}, shapeKeys...)).Draw(t, "k")
+	c.Key = rapid.SampledFrom(append([]string{"*", "zz", "@id", "id", "$"}, shapeKeys...)).Draw(t, "k")
 	c.Sep = rapid.SampledFrom([]string{":", ":", "|", "::", "\t", " | "}).Draw(t, "sep")
 	usePath := rapid.Bool().Draw(t, "usepath")
 	var cands []interface{}
@@ -261,13 +261,21 @@ func checkC08(c CaseC08, info *Info) *Failure {
 	// (4) sub-keys are a pure filter
 	passes, fails := 0, 0
 	if len(c.Conds) > 0 {
-		if c.Sep != ":" && c.Sep != "" {
-			mxj.SetFieldSeparator(c.Sep)
-		}
 		sep := c.Sep
 		if sep == "" {
 			sep = ":"
 		}
+		if len(c.Key)%2 == 0 {
+			// the very same argument strings were parsed a moment ago while ANOTHER separator was in force
+			other := "|"
+			if sep == "|" {
+				other = "#"
+			}
+			mxj.SetFieldSeparator(other)
+			mxj.Map(copyMap(c.Map)).ValuesForKey(c.Key, specs(c.Conds, sep)...)
+			mxj.Map(copyMap(c.Map)).ValuesForPath(pathString(c.Steps), specs(c.Conds, sep)...)
+		}
+		mxj.SetFieldSeparator(sep)
 		sp := specs(c.Conds, sep)
 		var all, filtered []interface{}
 		var what string
